@@ -540,6 +540,20 @@ func (w *World) doBounded() {
 		if n2 == total+4 {
 			n2 = math.MaxInt64
 		}
+		// what this merge brings in: what it reaches from the other log's heads before it meets an entry
+		// the (no longer causally closed) log already holds
+		before := hashSet(c.GetEntries())
+		merged := copySet(before)
+		stack := append([]string(nil), m.Heads(o.Set)...)
+		for len(stack) > 0 {
+			h := stack[len(stack)-1]
+			stack = stack[:len(stack)-1]
+			if merged[h] || !o.Set[h] {
+				continue
+			}
+			merged[h] = true
+			stack = append(stack, m.Reg[h].Next...)
+		}
 		var err error
 		out := Protect(func() { _, err = c.Join(w.clone(o, true), n2) })
 		if out.Status == "violation" {
@@ -554,6 +568,21 @@ func (w *World) doBounded() {
 		vals := hashSeq(c.Values())
 		if len(held) > n2 || c.Len() != len(held) {
 			r.Violate("C16:len", "after a further merge with bound %d the log holds %d entries (Len %d)", n2, len(held), c.Len())
+		}
+		wantN := n2
+		if wantN > len(merged) {
+			wantN = len(merged)
+		}
+		if len(held) != wantN {
+			r.Violate("C16:len", "a further merge with bound %d into a log of %d entries reached %d entries in all, but left %d: want min(n, total) = %d", n2, len(before), len(merged), len(held), wantN)
+		}
+		for h := range held {
+			if !merged[h] {
+				r.Violate("C16:values", "after a further merge with bound %d the log holds %s, which neither log held", n2, m.Name(h))
+			}
+		}
+		if lin2, strict2 := m.Linear(merged, w.ByHash); strict2 && joinS(sortedKeys(held)) != joinS(sortedCopy(lin2[len(lin2)-wantN:])) {
+			r.Violate("C16:values", "a further merge with bound %d kept %v, the last %d of the merged linearisation are %v", n2, m.Names(sortedKeys(held)), wantN, m.Names(sortedCopy(lin2[len(lin2)-wantN:])))
 		}
 		if joinS(sortedCopy(vals)) != joinS(sortedKeys(held)) {
 			r.Violate("C16:values", "after a further merge with bound %d the log holds %v but its linearised view is %v", n2, m.Names(sortedKeys(held)), m.Names(vals))
@@ -1203,7 +1232,7 @@ func (w *World) doPartial() {
 	var l *ipfslog.IPFSLog
 	var err error
 	w.driven(func(ctx context.Context) {
-		l, err = ipfslog.NewFromEntry(ctx, w.St, src.W.ID, append([]iface.IPFSLogEntry(nil), heads...), w.loadOpts(), &entry.FetchOptions{Concurrency: conc, Length: &lim})
+		l, err = ipfslog.NewFromEntry(ctx, w.St, src.W.ID, append([]iface.IPFSLogEntry(nil), heads...), w.loadOpts(), &entry.FetchOptions{Concurrency: conc, Length: &lim, ProgressChan: w.curProgress})
 	})
 	if err != nil {
 		r.Violate(w.P.Prop+":load-error", "length-limited load failed with no fault injected: %v", err)
